@@ -682,6 +682,9 @@ def honest(rng, engine, old=False):
         s["pkts"] = [(30, init[1:], 0)]
         reply = sends(run_scenario(s))[0]
         c["pkts"] = [(31, reply[1:], 0)]
+        if fam == "grp":
+            s["peer_value"], s["modulus_p"] = split_fields(init, "m")[0], P
+            c["peer_value"], c["modulus_p"] = split_fields(reply, "sms")[1], P
         return c, s
     bits = rng.choice([1024, 1025, 1536, 2048])
     p = random_odd(rng, bits)
